@@ -425,6 +425,47 @@ def l2m_case(args):
     return (gs, ts, order), errs
 
 
+def l2d_case(args):
+    """a gene with one annotated isoform T1 (five exons); n_fl full-length reads of T1, n_skip full-length reads that skip the third exon
+    (a novel model that is built and - when it is rare enough - discarded again) and partial reads that fit both: every read ends up in at
+    most one row of transcript_model_reads per model, and the model tables are the sums over that file"""
+    n_fl, n_skip, part, scratch = args
+    from vlib import syn, run, worlds as W
+    w = W.base_world(1, 6000)
+    w["genes"].append(W.locus_gene("G1", "chr1", "+", 1000, {"T1": [0, 1, 2, 3, 4]}))
+    syn.plant_for_transcripts(w)
+    W.add_sites_for_blocks(w, "chr1", W.exons(1000, [0, 1, 3, 4]), "+")
+    W.dedup_sites(w)
+    reads = [W.read_of("fl%d" % i, "chr1", W.exons(1000, [0, 1, 2, 3, 4])) for i in range(n_fl)]
+    reads += [W.read_of("skip%d" % i, "chr1", W.exons(1000, [0, 1, 3, 4])) for i in range(n_skip)]
+    pb = {"tail": [[2851, 3000], [3401, 3600]], "head": [[1001, 1200], [1601, 1750]]}[part]
+    reads += [W.read_of("part%d" % i, "chr1", pb, polya=(part == "tail")) for i in range(7)]
+    w["reads"] = reads
+    d = os.path.join(scratch, "c02_l2d_%d_%d_%s" % (n_fl, n_skip, part))
+    shutil.rmtree(d, ignore_errors=True)
+    paths = syn.materialise(w, d)
+    out = os.path.join(d, "out")
+    rc = run.run_isoquant(run.base_argv(paths, out), paths["home"], os.path.join(d, "o.txt"))
+    errs = []
+    if rc != 0:
+        errs.append(("run-failed", "exit %d: %s" % (rc, open(os.path.join(d, "o.txt")).read()[-300:])))
+    else:
+        errs += recount(out, "OUT", "unique_splicing_consistent", "unique_only", set())
+        import gzip
+        p = run.find(out, "OUT", ".transcript_model_reads.tsv")
+        seen = {}
+        for l in (gzip.open(p, "rt") if p.endswith(".gz") else open(p)):
+            if l.startswith("#") or not l.strip():
+                continue
+            k = tuple(l.rstrip("\n").split("\t")[:2])
+            seen[k] = seen.get(k, 0) + 1
+        dup = sorted(k for k, c in seen.items() if c > 1)
+        if dup:
+            errs.append(("model-read-listed-twice", "transcript_model_reads lists %d (read, model) pairs more than once, e.g. %s" % (len(dup), dup[0])))
+    shutil.rmtree(d, ignore_errors=True)
+    return (n_fl, n_skip, part), errs
+
+
 def l2_case(args):
     variant, gs, ts, norm, extra, scratch = args
     from vlib import syn, run
@@ -559,6 +600,13 @@ def run(ctx):
             ctx.violation("l2m:%s" % k, "two experiments, gene=%s transcript=%s order %d: %s" % (key + (msg,)), {"l2m": list(key)})
     ctx.note("two-experiment runs: %d" % len(jm))
     jobs = jobs + jm
+    jd2 = [(n_fl, n_skip, part, ctx.scratch) for n_fl in ((60, 170) if quick else (30, 60, 100, 170, 300)) for n_skip in ((2, 3) if quick else (1, 2, 3, 5, 8))
+           for part in ("tail", "head")]
+    for key, errs in core.pmap(l2d_case, jd2):
+        for k, msg in errs:
+            ctx.violation("l2d:%s" % k, "%d full-length reads, %d exon-skipping reads, partial reads at the %s: %s" % (key + (msg,)), {"l2d": list(key)})
+    ctx.note("discarded-model runs: %d" % len(jd2))
+    jobs = jobs + jd2
     # grouped TPM tables (a read group whose column total lies between 0 and 1): every group column is its counts column rescaled
     from props import c09
     jd = [(st, ctx.scratch) for st in ("with_ambiguous", "all", "unique_only", ("unique_only", "all"), ("all", "unique_only"))]
@@ -589,6 +637,9 @@ def _tup(x):
 
 
 def replay(ctx, case):
+    if "l2d" in case:
+        key, errs = l2d_case(tuple(case["l2d"]) + (ctx.scratch,))
+        return errs[0][1] if errs else None
     if "l3d" in case:
         from props import c09
         key, errs = c09.l3d_case((case["l3d"], ctx.scratch))
